@@ -96,7 +96,7 @@ class C20(common.Prop):
             "trailing-shape / rank mismatch, missing or extra key, short tuple, int with str, 2**63, 0-d tensor, empty batch, top-level plain "
             "tensor or int, float/None/np.int64/list, tuple inside dict, pad that does not fit the dtype); plus every length tuple over "
             "{0,1,2} for batch sizes 1..3 (quick) / 1..4 (thorough) x masked/plain x two trailing shapes; non-trivial = batch size >= 2 with a "
-            "tensor field, or malformed; distinct by content hash")
+            "tensor field, or malformed; distinct by content hash " "Dict examples with permuted key order; floating-point tensor batches are also padded with non-integral pad values (0.1, -2/3) and the padded cells compared with the value in the field's dtype.")
     TRUSTED = ["Coq 8.16.1 kernel", "harness/translate_c20.py (fail-closed ast translator)",
                "extraction: ExtrOcamlBasic only; runner/driver.ml",
                "harness/c20.py canonicalisers (exceptions -> one class; tensors -> dtype code, shape, exact integer values)"]
